@@ -117,6 +117,12 @@ fn parquet(ctx: &Ctx) -> R {
 
 /// The asynchronous writer / stream over the tokio faces of the same devices, with seeded `Pending`s.
 fn parquet_async(ctx: &Ctx) -> R {
+    if ctx.chance(1, 3, "pqasync.big") {
+        // row groups above the internal 8 KiB buffer: the async sink is written in the middle of write() / flush()
+        let inner = big_pq(ctx);
+        let pending_rate = *ctx.pick(&[0u64, 3, 8], "pqasync.pending");
+        return run_all(ctx, &PqAsyncFmt { inner, pending_rate });
+    }
     let p = pq_profile_basic(ctx);
     let wl = gen_workload(ctx, &p, 3, 24, true);
     let cfg = PqCfg::gen(ctx);
@@ -214,23 +220,30 @@ fn parquet_spill(ctx: &Ctx) -> R {
 /// Values large enough that single `write_all` calls exceed std's 8 KiB `BufWriter` capacity (the
 /// buffer is then bypassed and the sink sees the writer's own call pattern).
 fn parquet_big(ctx: &Ctx) -> R {
+    let f = big_pq(ctx);
+    run_all(ctx, &f)
+}
+fn big_pq(ctx: &Ctx) -> PqFmt {
     let mut p = pq_profile_basic(ctx);
     p.leaves = vec![gen::types_api::Leaf::Utf8, gen::types_api::Leaf::Binary, gen::types_api::Leaf::LargeUtf8, gen::types_api::Leaf::I64, gen::types_api::Leaf::Utf8View];
     p.max_str_len = 6000;
     p.long_str_rate = 5;
     p.max_depth = 1;
     p.max_cols = 2;
-    let wl = gen_workload(ctx, &p, 2, 40, false);
+    let wl = gen_workload(ctx, &p, 3, 40, false);
     let mut cfg = PqCfg::gen(ctx);
     cfg.data_page_limit = 1 << 20;
     cfg.dict_page_limit = 1 << 20;
     cfg.page_rows = 20000;
-    cfg.rg_rows = 1 << 20;
+    // one row group written by the finishing call, or several written in the middle of write() / flush() calls
+    // (only then can a sink fault hit a call that is not the last one the caller makes)
+    cfg.rg_rows = *ctx.pick(&[1usize << 20, 16, 7], "pqbig.rg_rows");
     cfg.write_batch = 1024;
     if !ctx.chance(1, 4, "pqbig.compressed") {
         cfg.codec = 0;
     }
-    run_all(ctx, &PqFmt { wl, cfg, flush_after: vec![] })
+    let flush_after = (0..wl.batches.len()).filter(|_| ctx.chance(1, 3, "pqbig.flush")).collect();
+    PqFmt { wl, cfg, flush_after }
 }
 
 fn main() {
